@@ -11,7 +11,10 @@ from .. import chrun, common
 from ..kernels import c10k
 
 
-def build_reference(wd, nprog):
+HASH_SEEDS = ["1", "2", "3", "4"]
+
+
+def build_reference(wd, nprog, hash_diffs=None):
     """R[p, triple] computed in fresh processes (one per entry)"""
     jobs = []
     for p in range(nprog):
@@ -20,9 +23,9 @@ def build_reference(wd, nprog):
                 for i in c10k.LEGAL["if_style"]:
                     jobs.append((p, u, w, i))
 
-    def one(j):
+    def one(j, hashseed="1"):
         p, u, w, i = j
-        env = dict(os.environ, ONELINER_VERIF_REPO=common.REPO)
+        env = dict(os.environ, ONELINER_VERIF_REPO=common.REPO, PYTHONHASHSEED=hashseed)
         r = subprocess.run([sys.executable, "-m", "vf.kernels.c10k", str(p), u, w, i], capture_output=True, text=True, cwd=common.VERIF, env=env, timeout=60)
         if r.returncode != 0:
             raise RuntimeError("reference conversion failed: %s" % r.stderr[-300:])
@@ -30,6 +33,14 @@ def build_reference(wd, nprog):
 
     with concurrent.futures.ThreadPoolExecutor(max_workers=16) as ex:
         outs = list(ex.map(one, jobs))
+        # the reference must be well defined: the same call in fresh processes with other hash
+        # seeds gives the same text (the explored histories themselves run under one more seed)
+        if hash_diffs is not None:
+            for hs in HASH_SEEDS[1:]:
+                other = list(ex.map(lambda j: one(j, hs), jobs))
+                for j, a, b in zip(jobs, outs, other):
+                    if a != b:
+                        hash_diffs.append((j, hs))
     ref = {c10k.triple_key(p, {"unparser": u, "expr_wrapper": w, "if_style": i}): t for (p, u, w, i), t in zip(jobs, outs)}
     path = os.path.join(wd, "c10_ref.json")
     with open(path, "w") as f:
@@ -44,7 +55,14 @@ def run(tier):
     L = 3 if tier == "quick" else 4
     acts = c10k.step_kinds(nprog)
     with common.Workdir("c10") as wd:
-        ref_path, ref = build_reference(wd, nprog)
+        hash_diffs = []
+        ref_path, ref = build_reference(wd, nprog, hash_diffs)
+        seen_p = set()
+        for (p, u, w, i), hs in hash_diffs:
+            if p in seen_p:
+                continue
+            seen_p.add(p)
+            rep.violation({"property": "C10", "kind": "c10", "descriptor": "C10:hashseed:program=%d" % p, "program": p, "config": [u, w, i], "hashseeds": [HASH_SEEDS[0], hs], "nprog": nprog, "divergence": "hashseed-diff", "what": "the text of convert_code_string(PROGRAMS[%d], %s/%s/%s) in a fresh process differs (beyond renaming of temporaries) between PYTHONHASHSEED=%s and %s" % (p, u, w, i, HASH_SEEDS[0], hs)})
         # sensitivity of the pool: the reference texts of one program must differ between triples
         distinct = {p: len({ref[k] for k in ref if k.startswith("%d|" % p)}) for p in range(nprog)}
         conds = []
@@ -101,11 +119,12 @@ def run(tier):
     cov["action_alphabet"] = [list(a) for a in acts]
     cov["history_length"] = L
     cov["reference_entries"] = len(ref)
+    cov["reference_hash_seeds"] = HASH_SEEDS
     cov["distinct_reference_texts_per_program"] = distinct
     cov["solver_cpu_s"] = st["solver_cpu_s"]
     cov["explanation"] = "every API history of length <= %d over an alphabet of %d concrete actions (create options object, set option/value incl. illegal values, convert with an object, convert without options, reseed random) is explored by CrossHair (the history is the symbolic variable, partitioned by its first action); conversions run concretely and are compared, after alpha-renaming of the __ol_ temporaries, with the same call made in a fresh process" % (L, n)
     cov["functions_encoded"] = ["oneliner.config.Cfg.__set__/__get__/__set_name__", "oneliner.config.Configs", "oneliner.convert_code_string (default options path and explicit options path)", "oneliner.utils.unique_id (through the reseed action)", "oneliner.presets.iter_wrapper (shared module-level AST, program 1)"]
-    rep.assumptions += ["module state is made pristine at the start of every explored path by re-importing oneliner (so that one path cannot influence the next); the property itself is about state inside one history", "states = number of histories within the bound; each history is one path of the kernel", "bound: <= 2 options objects, %d programs, 3 values per option (2 legal + 1 illegal)" % nprog]
+    rep.assumptions += ["module state is made pristine at the start of every explored path by re-importing oneliner (so that one path cannot influence the next); the property itself is about state inside one history", "states = number of histories within the bound; each history is one path of the kernel", "process-level state: the reference of every (program, options) entry is computed in fresh processes under 4 hash seeds and must coincide; the histories run under the check's own hash seed", "bound: <= 2 options objects, %d programs, 3 values per option (2 legal + 1 illegal)" % nprog]
     return rep.finish()
 
 
@@ -113,6 +132,13 @@ def replay(rec):
     from ..kernels import c10k as k
     import tempfile
 
+    if rec.get("divergence") == "hashseed-diff":
+        outs = []
+        for hs in rec["hashseeds"]:
+            env = dict(os.environ, ONELINER_VERIF_REPO=common.REPO, PYTHONHASHSEED=hs)
+            r = subprocess.run([sys.executable, "-m", "vf.kernels.c10k", str(rec["program"])] + list(rec["config"]), capture_output=True, text=True, cwd=common.VERIF, env=env, timeout=60)
+            outs.append(r.stdout)
+        return {"reproduced": outs[0] != outs[1], "divergence": "hashseed-diff"}
     with tempfile.TemporaryDirectory(prefix="olverif-c10r-") as wd:
         ref_path, ref = build_reference(wd, rec["nprog"])
         k.load_ref(ref_path)
